@@ -1893,7 +1893,7 @@ func (r stack) defaultAssertionHandler(x any) (str string) {
 			// symbol operators ... but never
 			// leave a dangling operator behind
 			// when the NOT has nothing to show.
-			ik = foldValue(Xs.positive(cfold), ik)
+			// (ik already honors the case-folding bit; see nodeConfig.kind)
 			str = ik + ` ` + str
 		}
 
